@@ -715,3 +715,134 @@ package keeper
 //@   ensures[C10.view_allowance,C12.ro_allowance_writes_nothing] err == nil ==> bytes(ret) == abiEncUint(cpcAllow(kvHas[kvId(layer(env.ctx), payload(e.contract.keeper.storeKey))], kvVal[kvId(layer(env.ctx), payload(e.contract.keeper.storeKey))], abiArgAddr(bytes(input), 0), abiArgAddr(bytes(input), 1)))
 //@   panics[C10.view_allowance_panics] only_if len(input) < 4 || !abiSelectorOk("allowance", bytes(input))
 
+// ---------------------------------------------------------------------------------------------
+// precompiles.go — wiring of the executors into the fork's method table (C12)
+// ---------------------------------------------------------------------------------------------
+//@ import evmvm "github.com/EscanBE/evermint/v12/x/evm/vm"
+
+// Interface-level summaries (TRUSTED; justified by the per-implementation contracts above: every implementation of
+// ReadOnly / RequireGas / Method4BytesSignatures returns a constant of the executor object, which is never mutated
+// after construction) — a function of the executor value.
+//@ func (x ExtendedCustomPrecompiledContractMethodExecutorI) ReadOnly() bool
+//@   assumed
+//@   pure
+//@   panics never
+//@ func (x ExtendedCustomPrecompiledContractMethodExecutorI) RequireGas() uint64
+//@   assumed
+//@   pure
+//@   panics never
+//@ func (x ExtendedCustomPrecompiledContractMethodExecutorI) Method4BytesSignatures() []byte
+//@   assumed
+//@   pure
+//@   ensures len(result) == 4
+//@   panics never
+
+// Ghost record of the call that reaches an executor: how often, and with which environment.
+//@ ghost var cpcInnerCalls map[int]int
+//@ ghost var cpcInnerCtx map[int]sdk.Context
+//@ ghost var cpcInnerEvm map[int]ref
+//@ ghost var cpcInnerExecutor map[int]ref
+//@ ghost var cpcInnerInput map[int]bytes
+//@ func (x ExtendedCustomPrecompiledContractMethodExecutorI) Execute(caller corevm.ContractRef, contractAddress common.Address, input []byte, env cpcExecutorEnv) (ret []byte, err error)
+//@   assumed
+//@   modifies cpcInnerCalls, cpcInnerCtx, cpcInnerEvm, cpcInnerExecutor, cpcInnerInput, bankBal, bankSupply, authVersion, evlog, kvHas, kvVal, sdbLogCount, sdbLogAddr, sdbLogNTopics, sdbLogT0, sdbLogT1, sdbLogT2, sdbLogT3, sdbLogData, sdbOther, sdbBal, sdbNonce, sdbSupply
+//@   ensures cpcInnerCalls[0] == old(cpcInnerCalls[0]) + 1 && cpcInnerCtx[0] == env.ctx && cpcInnerEvm[0] == env.evm && cpcInnerExecutor[0] == payload(x) && cpcInnerInput[0] == bytes(input)
+//@   panics any
+
+// the StateDB's current (innermost, revertible) context: x/evm/vm cStateDb.GetCurrentContext returns d.currentCtx
+// (a component of the StateDB object's state: it changes with Snapshot / RevertToSnapshot)
+//@ ghost var sdbCurCtx map[ref]sdk.Context
+//@ func (d evmvm.CStateDB) GetCurrentContext() sdk.Context
+//@   assumed
+//@   modifies nothing
+//@   ensures result == sdbCurCtx[payload(d)]
+//@   panics never
+
+// NewCustomPrecompiledContractMethod passes the executor's declarations through UNCHANGED (C12: the fork gates on exactly
+// the ReadOnly flag the executor declares and charges exactly the gas it declares) and wraps the executor.
+//@ func NewCustomPrecompiledContractMethod(executor ExtendedCustomPrecompiledContractMethodExecutorI, protocolVersion cpctypes.ProtocolCpc) (m corevm.CustomPrecompiledContractMethod)
+//@   requires executor != nil
+//@   modifies nothing
+//@   ensures[C12.flag_passthrough] m.ReadOnly == executor.ReadOnly() && m.RequireGas == executor.RequireGas() && m.Method4BytesSignatures == executor.Method4BytesSignatures()
+//@   ensures[C12.wraps_executor] typeof(m.Executor) == type(*customPrecompiledContractMethodExecutorImpl) && fresh(payload(m.Executor)) && unbox(m.Executor, type(*customPrecompiledContractMethodExecutorImpl)).executor == executor && unbox(m.Executor, type(*customPrecompiledContractMethodExecutorImpl)).protocolVersion == protocolVersion
+//@   panics never
+
+// The wrapper the fork calls: exactly one call of the wrapped executor, with the call data unchanged, the EVM it was
+// given and the StateDB's CURRENT context (so that every write of the executor lands in the innermost, revertible layer).
+//@ func (m customPrecompiledContractMethodExecutorImpl) Execute(caller corevm.ContractRef, contractAddress common.Address, input []byte, evm *corevm.EVM) (ret []byte, err error)
+//@   requires m.executor != nil && evm != nil
+//@   modifies cpcInnerCalls, cpcInnerCtx, cpcInnerEvm, cpcInnerExecutor, cpcInnerInput, bankBal, bankSupply, authVersion, evlog, kvHas, kvVal, sdbLogCount, sdbLogAddr, sdbLogNTopics, sdbLogT0, sdbLogT1, sdbLogT2, sdbLogT3, sdbLogData, sdbOther, sdbBal, sdbNonce, sdbSupply
+//@   ensures[C12.exec_env,C03.exec_env] cpcInnerCalls[0] == old(cpcInnerCalls[0]) + 1 && cpcInnerEvm[0] == evm && cpcInnerExecutor[0] == payload(m.executor) && cpcInnerInput[0] == bytes(input) && implements(evm.StateDB, type(evmvm.CStateDB)) && cpcInnerCtx[0] == old(sdbCurCtx[payload(evm.StateDB)])
+//@   panics any
+
+// ---------------------------------------------------------------------------------------------
+// params.go — module parameters (C17). View of the stored record: the store entry at key [1] (KeyPrefixParams),
+// decoded by the codec (prelude/44_cpc_codec.spec); an absent / empty entry is the zero Params record.
+// ---------------------------------------------------------------------------------------------
+//@ ghost func cpcParamsVersion(has map[bytes]bool, val map[bytes]bytes) int = (has[b1(1)] && blen(val[b1(1)]) != 0) ? pbParamsVersion(val[b1(1)]) : 0
+//@ ghost func cpcParamsDoc(has map[bytes]bool, val map[bytes]bytes) bytes = val[b1(1)]
+//@ ghost func cpcParamsStored(has map[bytes]bool, val map[bytes]bytes) bool = has[b1(1)] && blen(val[b1(1)]) != 0
+
+//@ func (k Keeper) GetParams(ctx sdk.Context) (params cpctypes.Params)
+//@   requires k.storeKey != nil && k.cdc != nil
+//@   modifies nothing
+//@   ensures[C17.params_view] params.ProtocolVersion == cpcParamsVersion(kvHas[kvId(layer(ctx), payload(k.storeKey))], kvVal[kvId(layer(ctx), payload(k.storeKey))])
+//@   ensures[C17.params_whitelist_view] cpcParamsStored(kvHas[kvId(layer(ctx), payload(k.storeKey))], kvVal[kvId(layer(ctx), payload(k.storeKey))]) ==> (len(params.WhitelistedDeployers) == pbParamsWLLen(cpcParamsDoc(kvHas[kvId(layer(ctx), payload(k.storeKey))], kvVal[kvId(layer(ctx), payload(k.storeKey))])) && (forall j int :: (0 <= j && j < len(params.WhitelistedDeployers)) ==> params.WhitelistedDeployers[j] == pbParamsWLAt(cpcParamsDoc(kvHas[kvId(layer(ctx), payload(k.storeKey))], kvVal[kvId(layer(ctx), payload(k.storeKey))]), j)))
+//@   ensures !cpcParamsStored(kvHas[kvId(layer(ctx), payload(k.storeKey))], kvVal[kvId(layer(ctx), payload(k.storeKey))]) ==> len(params.WhitelistedDeployers) == 0
+//@   panics only_if cpcParamsStored(kvHas[kvId(layer(ctx), payload(k.storeKey))], kvVal[kvId(layer(ctx), payload(k.storeKey))]) && !pbParamsOk(cpcParamsDoc(kvHas[kvId(layer(ctx), payload(k.storeKey))], kvVal[kvId(layer(ctx), payload(k.storeKey))]))
+
+//@ func (k Keeper) GetProtocolCpcVersion(ctx sdk.Context) cpctypes.ProtocolCpc
+//@   requires k.storeKey != nil && k.cdc != nil
+//@   modifies nothing
+//@   ensures[C17.version_view] result == cpcParamsVersion(kvHas[kvId(layer(ctx), payload(k.storeKey))], kvVal[kvId(layer(ctx), payload(k.storeKey))])
+//@   panics only_if cpcParamsStored(kvHas[kvId(layer(ctx), payload(k.storeKey))], kvVal[kvId(layer(ctx), payload(k.storeKey))]) && !pbParamsOk(cpcParamsDoc(kvHas[kvId(layer(ctx), payload(k.storeKey))], kvVal[kvId(layer(ctx), payload(k.storeKey))]))
+
+// SetParams: the protocol version never decreases; a rejected update leaves the store untouched; only the params entry is written.
+//@ func (k Keeper) SetParams(ctx sdk.Context, params cpctypes.Params) (err error)
+//@   requires k.storeKey != nil && k.cdc != nil
+//@   modifies kvHas[kvId(layer(ctx), payload(k.storeKey))], kvVal[kvId(layer(ctx), payload(k.storeKey))]
+//@   ensures[C17.no_downgrade] err == nil ==> (old(cpcParamsVersion(kvHas[kvId(layer(ctx), payload(k.storeKey))], kvVal[kvId(layer(ctx), payload(k.storeKey))])) <= params.ProtocolVersion && cpcParamsVersion(kvHas[kvId(layer(ctx), payload(k.storeKey))], kvVal[kvId(layer(ctx), payload(k.storeKey))]) == params.ProtocolVersion)
+//@   ensures[C17.downgrade_rejected] old(cpcParamsVersion(kvHas[kvId(layer(ctx), payload(k.storeKey))], kvVal[kvId(layer(ctx), payload(k.storeKey))])) > params.ProtocolVersion ==> err != nil
+//@   ensures[C17.rejected_update_writes_nothing] err != nil ==> (kvHas[kvId(layer(ctx), payload(k.storeKey))] == old(kvHas[kvId(layer(ctx), payload(k.storeKey))]) && kvVal[kvId(layer(ctx), payload(k.storeKey))] == old(kvVal[kvId(layer(ctx), payload(k.storeKey))]))
+//@   ensures[C17.params_frame] (kvHas[kvId(layer(ctx), payload(k.storeKey))] == old(kvHas[kvId(layer(ctx), payload(k.storeKey))])[b1(1) := kvHas[kvId(layer(ctx), payload(k.storeKey))][b1(1)]] && kvVal[kvId(layer(ctx), payload(k.storeKey))] == old(kvVal[kvId(layer(ctx), payload(k.storeKey))])[b1(1) := kvVal[kvId(layer(ctx), payload(k.storeKey))][b1(1)]])
+//@   ensures[C17.params_valid_version] err == nil ==> (1 <= params.ProtocolVersion && params.ProtocolVersion <= 1)
+
+// msg_server.go — deployment is restricted to the whitelist stored in the params (C17)
+//@ func validateDeployer(authority string, moduleParams cpctypes.Params) (err error)
+//@   modifies nothing
+//@   ensures[C17.whitelist_check] (err == nil) == (exists j int :: 0 <= j && j < len(moduleParams.WhitelistedDeployers) && moduleParams.WhitelistedDeployers[j] == authority)
+//@   panics never
+//@ loop 1
+//@   invariant -1 <= rangeindex && rangeindex < len(moduleParams.WhitelistedDeployers) && (forall j int :: (0 <= j && j <= rangeindex) ==> moduleParams.WhitelistedDeployers[j] != authority)
+
+// ---------------------------------------------------------------------------------------------
+// precompiles.go — the registry of custom precompiled contracts (C17). View over the module store: the record of address
+// a is the store entry at metaKeyB(a) = [2] ++ a (x/cpc/types/verif_contracts.go), decoded by the codec.
+// ---------------------------------------------------------------------------------------------
+
+//@ func (k Keeper) HasCustomPrecompiledContract(ctx sdk.Context, contractAddress common.Address) bool
+//@   requires k.storeKey != nil
+//@   modifies nothing
+//@   ensures[C17.has_view] result == kvHas[kvId(layer(ctx), payload(k.storeKey))][metaKeyB(contractAddress)]
+//@   panics never
+
+//@ func (k Keeper) GetCustomPrecompiledContractMeta(ctx sdk.Context, contractAddress common.Address) (meta *cpctypes.CustomPrecompiledContractMeta)
+//@   requires k.storeKey != nil && k.cdc != nil
+//@   modifies nothing
+//@   ensures[C17.get_absent] (meta == nil) == !(kvHas[kvId(layer(ctx), payload(k.storeKey))][metaKeyB(contractAddress)] && blen(kvVal[kvId(layer(ctx), payload(k.storeKey))][metaKeyB(contractAddress)]) != 0)
+//@   ensures[C17.get_view] meta != nil ==> (fresh(meta) && meta.CustomPrecompiledType == pbMetaType(kvVal[kvId(layer(ctx), payload(k.storeKey))][metaKeyB(contractAddress)]) && bytes(meta.Address) == pbMetaAddr(kvVal[kvId(layer(ctx), payload(k.storeKey))][metaKeyB(contractAddress)]) && meta.Name == pbMetaName(kvVal[kvId(layer(ctx), payload(k.storeKey))][metaKeyB(contractAddress)]) && meta.TypedMeta == pbMetaTyped(kvVal[kvId(layer(ctx), payload(k.storeKey))][metaKeyB(contractAddress)]) && meta.Disabled == pbMetaDisabled(kvVal[kvId(layer(ctx), payload(k.storeKey))][metaKeyB(contractAddress)]))
+//@   panics only_if kvHas[kvId(layer(ctx), payload(k.storeKey))][metaKeyB(contractAddress)] && !pbMetaOk(kvVal[kvId(layer(ctx), payload(k.storeKey))][metaKeyB(contractAddress)])
+
+// SetCustomPrecompiledContractMeta: a new deployment needs a free address, an update an existing record of the SAME type
+// (a type change panics); only the record of that address is written; a failing call writes nothing.
+//@ func (k Keeper) SetCustomPrecompiledContractMeta(ctx sdk.Context, contractMetadata cpctypes.CustomPrecompiledContractMeta, newDeployment bool) (err error)
+//@   requires k.storeKey != nil && k.cdc != nil
+//@   modifies kvHas[kvId(layer(ctx), payload(k.storeKey))], kvVal[kvId(layer(ctx), payload(k.storeKey))], evlog[payload(ctx.EventManager())]
+//@   ensures[C17.valid_records_only] err == nil ==> (len(contractMetadata.Address) == 20 && bytesAddr(bytes(contractMetadata.Address)) != zero(type(common.Address)) && 1 <= contractMetadata.CustomPrecompiledType && contractMetadata.CustomPrecompiledType <= 3)
+//@   ensures[C17.new_needs_free_address] (err == nil && newDeployment) ==> !old(kvHas[kvId(layer(ctx), payload(k.storeKey))][metaKeyB(bytesAddr(bytes(contractMetadata.Address)))])
+//@   ensures[C17.update_needs_record] (err == nil && !newDeployment) ==> (old(kvHas[kvId(layer(ctx), payload(k.storeKey))][metaKeyB(bytesAddr(bytes(contractMetadata.Address)))]) && blen(old(kvVal[kvId(layer(ctx), payload(k.storeKey))][metaKeyB(bytesAddr(bytes(contractMetadata.Address)))])) != 0)
+//@   ensures[C17.type_never_changes] (err == nil && !newDeployment) ==> pbMetaType(old(kvVal[kvId(layer(ctx), payload(k.storeKey))][metaKeyB(bytesAddr(bytes(contractMetadata.Address)))])) == contractMetadata.CustomPrecompiledType
+//@   ensures[C17.record_stored] err == nil ==> (kvHas[kvId(layer(ctx), payload(k.storeKey))][metaKeyB(bytesAddr(bytes(contractMetadata.Address)))] && pbMetaType(kvVal[kvId(layer(ctx), payload(k.storeKey))][metaKeyB(bytesAddr(bytes(contractMetadata.Address)))]) == contractMetadata.CustomPrecompiledType && pbMetaAddr(kvVal[kvId(layer(ctx), payload(k.storeKey))][metaKeyB(bytesAddr(bytes(contractMetadata.Address)))]) == bytes(contractMetadata.Address) && pbMetaName(kvVal[kvId(layer(ctx), payload(k.storeKey))][metaKeyB(bytesAddr(bytes(contractMetadata.Address)))]) == contractMetadata.Name && pbMetaTyped(kvVal[kvId(layer(ctx), payload(k.storeKey))][metaKeyB(bytesAddr(bytes(contractMetadata.Address)))]) == contractMetadata.TypedMeta && pbMetaDisabled(kvVal[kvId(layer(ctx), payload(k.storeKey))][metaKeyB(bytesAddr(bytes(contractMetadata.Address)))]) == contractMetadata.Disabled && blen(kvVal[kvId(layer(ctx), payload(k.storeKey))][metaKeyB(bytesAddr(bytes(contractMetadata.Address)))]) != 0)
+//@   ensures[C17.registry_frame] (kvHas[kvId(layer(ctx), payload(k.storeKey))] == old(kvHas[kvId(layer(ctx), payload(k.storeKey))])[metaKeyB(bytesAddr(bytes(contractMetadata.Address))) := kvHas[kvId(layer(ctx), payload(k.storeKey))][metaKeyB(bytesAddr(bytes(contractMetadata.Address)))]] && kvVal[kvId(layer(ctx), payload(k.storeKey))] == old(kvVal[kvId(layer(ctx), payload(k.storeKey))])[metaKeyB(bytesAddr(bytes(contractMetadata.Address))) := kvVal[kvId(layer(ctx), payload(k.storeKey))][metaKeyB(bytesAddr(bytes(contractMetadata.Address)))]])
+//@   ensures[C17.failed_set_writes_nothing] err != nil ==> (kvHas[kvId(layer(ctx), payload(k.storeKey))] == old(kvHas[kvId(layer(ctx), payload(k.storeKey))]) && kvVal[kvId(layer(ctx), payload(k.storeKey))] == old(kvVal[kvId(layer(ctx), payload(k.storeKey))]))
+
